@@ -7,7 +7,7 @@ from sa.engine.cfg import is_shield_with
 from sa.engine.facts import Bad, F
 from sa.engine.pattern import P, u, dump
 from sa.engine.source import norm, own_walk
-from .common import A, lexically_inside
+from .common import A, lexically_inside, waiter_guard
 from .c02 import routing
 
 EXPLANATION = ("TaskGroup.start(): a cancelled/failed wait for readiness cancels a still-pending child and waits for it under a shield "
@@ -180,3 +180,6 @@ def check(ctx):
     for st, _ in ctx.sites(done, f"self._exceptions.append({x})"):
         ctx.require_at("R07-d", done, st, [[f"{tsf} is None"], [f"{tsf}.done()"]],
                        instance="a child error goes to the group only once start() can no longer receive it")
+
+    # ---- R07-f the readiness outcome is not overtaken by a cancellation of the starter -------------------------------------------
+    waiter_guard(ctx, "R07-f", "a starter whose readiness future has completed (value or the child's error) is not cancelled over it")
